@@ -36,9 +36,10 @@ class Conjugate: # TODO: Subclass from Sampler once updated
     def step(self, x=None):
         # Extract variables
         b = self.target.likelihood.data                                 #mu
-        m = self._calc_m_for_Gaussians(b)                               #n
         Ax = self.target.likelihood.distribution.mean                   #x_i
-        L = self.target.likelihood.distribution(np.array([1])).sqrtprec #L
+        unit_dist = self.target.likelihood.distribution(np.array([1]))  #likelihood distribution at unit conjugate parameter
+        m = self._calc_m_for_Gaussians(b, unit_dist)                    #n
+        L = unit_dist.sqrtprec                                          #L
         alpha = self.target.prior.shape                                 #alpha
         beta = self.target.prior.rate                                   #beta
 
@@ -47,9 +48,9 @@ class Conjugate: # TODO: Subclass from Sampler once updated
 
         return dist.sample()
 
-    def _calc_m_for_Gaussians(self, b):
+    def _calc_m_for_Gaussians(self, b, unit_dist):
         """ Helper method to calculate m parameter for Gaussian-Gamma conjugate pair. """
         if isinstance(self.target.likelihood.distribution, (Gaussian, GMRF)):
-            return len(b)
+            return unit_dist.rank # Rank of the precision; less than len(b) for periodic/Neumann GMRFs
         elif isinstance(self.target.likelihood.distribution, (RegularizedGaussian, RegularizedGMRF)):
             return np.count_nonzero(b) # See 
